@@ -77,6 +77,66 @@ theorem generate_hashMap (p : Pool) : (generate p).1.hashMap = p.hashMap ∧ (ge
   · exact ⟨rfl, rfl⟩
   · exact generateBlock_hashMap p
 
+-- the same chain for the batch sequence number
+theorem getCommit_seqNo (p : Pool) (a : String) : (getCommit p a).1.seqNo = p.seqNo := by
+  unfold getCommit; split <;> rfl
+
+theorem drain_seqNo (limit : Nat) : ∀ (fuel : Nat) (acc : GenAcc) (ptr : Ptr),
+    (drainSkipped limit fuel acc ptr).pool.seqNo = acc.pool.seqNo
+  | 0, _, _ => rfl
+  | fuel+1, acc, ptr => by
+    unfold drainSkipped
+    split
+    · simp only
+      split
+      · rfl
+      · exact (drain_seqNo limit fuel (addPtr limit acc ptr) (ptr.1, ptr.2 + 1)).trans rfl
+    · rfl
+
+theorem genStep_seqNo (limit : Nat) (acc : GenAcc) (k : Int × String × Nat) :
+    (genStep limit acc k).pool.seqNo = acc.pool.seqNo := by
+  unfold genStep
+  split
+  · rfl
+  · split
+    · rfl
+    · simp only
+      have hc := getCommit_seqNo acc.pool k.2.1
+      split
+      · split
+        · exact hc
+        · exact (drain_seqNo limit _ _ _).trans hc
+      · exact hc
+
+theorem genFold_seqNo (limit : Nat) (ks : List (Int × String × Nat)) (acc : GenAcc) :
+    (ks.foldl (genStep limit) acc).pool.seqNo = acc.pool.seqNo := by
+  induction ks generalizing acc with
+  | nil => rfl
+  | cons k rest ih => simp only [List.foldl_cons]; exact (ih _).trans (genStep_seqNo limit acc k)
+
+/-- a batch takes the next sequence number; without a batch the number stays -/
+theorem generateBlock_seqNo (p : Pool) :
+    (∀ p' b, generateBlock p = (p', some b) → p'.seqNo = p.seqNo + 1 ∧ b.height = p.seqNo + 1) ∧
+    (∀ p', generateBlock p = (p', none) → p'.seqNo = p.seqNo) := by
+  unfold generateBlock
+  simp only
+  generalize (if p.nonBatch > p.batchSize then p.batchSize else p.nonBatch) = limit
+  have h := genFold_seqNo limit (sortPrio p.priority) { pool := p }
+  constructor
+  · intro p' b hb
+    split at hb
+    · cases hb
+    · injection hb with h1 h2
+      injection h2 with h2
+      subst h1; subst h2
+      exact ⟨by simp only [h], by simp only [h]⟩
+  · intro p' hb
+    split at hb
+    · injection hb with h1 _
+      subst h1
+      exact h
+    · cases hb
+
 def evictOne (p : Pool) (tx : TxR) : Pool :=
   { p with nidx := setDel p.nidx (tx.acct, tx.nonce), items := KV.erase p.items (tx.acct, tx.nonce),
            priority := setDel p.priority (tx.ts, tx.acct, tx.nonce), parking := setDel p.parking (tx.acct, tx.nonce),
